@@ -415,8 +415,8 @@ pub fn run(args: &Args) -> i32 {
     let mut rep = Report::new("C01", tier, "model_checking");
     let mut tasks = vec![];
     let (d_all, d_base, rounds) = match tier {
-        Tier::Quick => (2, 2, 2),
-        Tier::Thorough => (3, 4, 2),
+        Tier::Quick => (3, 3, 2),
+        Tier::Thorough => (5, 6, 2),
     };
     for cell in all_cells() {
         for topo in TOPOLOGIES {
